@@ -2,6 +2,8 @@
 reads/writes go to the live store."""
 from ..tree import *  # noqa
 from ..flow import Index
+from .. import iterdesc
+from .. import norm as norm_
 from .c02 import binding_of_pat, mname
 
 IMPL = "<patronus::sim::interpreter::Interpreter as patronus::sim::interface::Simulator>"
@@ -44,10 +46,33 @@ def run(ctx):
     getset(ctx)
 
 
+STATES = ("elem", "self.sys.states")
+INPUTS = ("elem", "self.sys.inputs")
+
+
+def top_stmt(f, n):
+    """index of the top-level statement of the function body that contains n (None when nested deeper than that is irrelevant)"""
+    body = f["body"]
+    while body.get("k") == "blockexpr":
+        body = body["b"]
+    items = list(body.get("stmts", [])) + ([body["tail"]] if "tail" in body else [])
+    for i_, s_ in enumerate(items):
+        if s_ is n or contains(s_, n):
+            return i_
+    return None
+
+
+def strip_opt(d):
+    while isinstance(d, tuple) and d and d[0] in ("opt", "payload") and len(d) == 2 and isinstance(d[1], tuple) and d[1][0] in ("opt", "payload", "call"):
+        d = d[1]
+    return d
+
+
 def step(ctx):
     f = ctx.fn("patronus", IMPL + "::step")
     ix = Index(f["body"])
     defs = local_defs(f)
+    D = iterdesc.Desc(ix, defs, call_names=(EVAL_EXPR,))
     evals = [n for n in ix.nodes if is_eval(n)]
     ups = [n for n in ix.nodes if is_update(n) and n["name"].startswith("update")]
     ctx.floor("R07.1", "eval_expr calls in step", len(evals), 1)
@@ -62,116 +87,114 @@ def step(ctx):
         ctx.inst("R07.1", "step:update#%d:not-fused" % (i + 1), not shared, u["sp"],
                  "`%s` is inside the same loop/closure as an eval_expr call: a next-state function evaluated later in that loop reads an already updated state (the step is no longer simultaneous)" % show(u),
                  sample=show(u))
-    # (b) the evaluation pass is materialised (collect) in a statement that dominates every update
-    passes = []
-    for n in ix.nodes:
-        if n.get("k") == "let" and "init" in n and any(is_eval(x) for x in walk(n["init"])):
-            b, ms = chain(n["init"])
-            if ms and ms[-1][0] in ("collect",) or (n["init"].get("ty") or "").startswith("alloc::vec::Vec<"):
-                passes.append(n)
-    ctx.inst("R07.1", "step:evaluation-pass", len(passes) >= 1, f["span"], "no statement materialises all next-state values (…collect::<Vec<_>>()) before the commit phase")
-    ev_in_pass = [e for e in evals if any(contains(p, e) for p in passes)]
-    ctx.inst("R07.1", "step:all-evals-in-pass", len(ev_in_pass) == len(evals), f["span"], "%d eval_expr call(s) in step happen outside the evaluation pass" % (len(evals) - len(ev_in_pass)))
+    # (b) the evaluation pass is complete before the commit phase starts: every statement of the body that evaluates precedes every statement that updates
+    te = [top_stmt(f, e) for e in evals]
+    tu = [top_stmt(f, u) for u in ups]
+    okp = bool(te) and bool(tu) and None not in te and None not in tu and max(te) < min(tu)
+    ctx.inst("R07.1", "step:evaluation-pass", okp, f["span"], "every next-state value must be computed (in statements %s of step) before the first store update (statements %s)" % (te, tu))
+    # evaluated values are materialised: an evaluation inside a lazy iterator adaptor that is consumed by the commit loop would run interleaved with the updates
+    lazy = []
+    for e in evals:
+        it = norm_.iter_context(ix, e)
+        # Option::map and the like run eagerly: only iterator adaptors are lazy
+        while it is not None and it["kind"] == "closure" and "iterator::Iterator" not in (it.get("call", {}).get("path") or ""):
+            it = norm_.iter_context(ix, it["node"])
+        if it is not None and it["kind"] == "closure":
+            call = it.get("call")
+            top = call
+            par = ix.parent.get(id(top))
+            names = []
+            while par is not None and par.get("k") in ("mcall", "try") and (par.get("recv") is top or par.get("e") is top):
+                if par.get("k") == "mcall":
+                    names.append(par["name"])
+                top = par
+                par = ix.parent.get(id(par))
+            if not any(nm in ("collect", "for_each", "count", "last", "sum", "fold", "try_for_each") for nm in names):
+                lazy.append(e)
+    ctx.inst("R07.1", "step:all-evals-in-pass", not lazy, f["span"], "%d eval_expr call(s) in step sit in an iterator adaptor that is not consumed (collect) in the evaluation pass: they would run during the commit loop" % len(lazy))
     for i, u in enumerate(ups):
-        ok = any(ix.dominates(p, u) for p in passes)
-        ctx.inst("R07.1", "step:update#%d:after-pass" % (i + 1), ok, u["sp"], "`%s` is not dominated by the completed evaluation pass" % show(u))
-    # (c) positional commit
-    for p in passes:
-        pb = binding_of_pat(p["pat"])
-        base, ms = chain(p["init"])
-        src_ok = self_field(base, "sys.states") and [m[0] for m in ms][:2] == ["iter", "map"]
-        lazy = [m[0] for m in ms if m[0] in ("filter", "filter_map", "skip", "take", "rev", "step_by", "flat_map", "flatten")]
-        ctx.inst("R07.1", "step:pass-source", src_ok and not lazy, p["sp"], "the evaluation pass is not a 1:1 map over self.sys.states (`%s`): values would be committed to the wrong states" % show(p["init"])[:160])
-        # closure evaluates the state's own next against the live store
-        for e in ev_in_pass:
-            a = e["args"]
-            ok = self_field(a[0], "ctx") and self_field(a[1], "data")
-            ctx.inst("R07.1", "step:eval-args", ok, e["sp"], "next-state functions are not evaluated against the simulator's own context and live store: %s" % show(e))
-        for u in ups:
-            loop = ix.enclosing(u, ("for",))
-            ok = False
-            why = "update outside a `for (state, value) in states.zip(values)` loop"
-            if loop is not None and pb is not None:
-                lb, lms = chain(loop["iter"])
-                names = [m[0] for m in lms]
-                if self_field(lb, "sys.states") and names == ["iter", "zip"]:
-                    zb, zms = chain(lms[1][1][0])
-                    if is_local(zb, pb[1]) and [m[0] for m in zms] in (["into_iter"], ["iter"], []):
-                        pat = loop["pat"]
-                        if pat.get("k") == "ptuple" and len(pat["subs"]) == 2:
-                            sb, vb = binding_of_pat(pat["subs"][0]), binding_of_pat(pat["subs"][1])
-                            fp = field_path(u["args"][0])
-                            val = peel(u["args"][1])
-                            val_ok = False
-                            if val.get("k") == "local" and vb:
-                                d = defs.get(val["id"])
-                                if val["id"] == vb[1]:
-                                    val_ok = True
-                                elif d and d[0] in ("letexpr", "arm", "let"):
-                                    src = d[1].get("init") or d[1].get("scrut")
-                                    val_ok = src is not None and is_local(src, vb[1])
-                            ok = sb is not None and fp is not None and fp[1] == sb[1] and fp[2] == ["symbol"] and val_ok and self_field(u["recv"], "data")
-                            why = "the committed value / target state are not the zipped pair"
-                else:
-                    why = "commit loop iterates `%s`" % show(loop["iter"])[:120]
-            ctx.inst("R07.1", "step:commit-positional", ok, u["sp"], "%s: %s" % (why, show(u)), sample=show(loop["iter"]) if loop else None)
+        ok = okp
+        ctx.inst("R07.1", "step:update#%d:after-pass" % (i + 1), ok, u["sp"], "`%s` is not preceded by the completed evaluation pass" % show(u))
+    for e in evals:
+        a = e["args"]
+        ok = self_field(a[0], "ctx") and self_field(a[1], "data")
+        ctx.inst("R07.1", "step:eval-args", ok, e["sp"], "next-state functions are not evaluated against the simulator's own context and live store: %s" % show(e))
+    # (c) every value is committed to the state whose next-state function produced it
+    for u in ups:
+        ds = D.of(u["args"][0])
+        dv = strip_opt(D.of(u["args"][1]))
+        loop = norm_.iter_context(ix, u)
+        ok = False
+        why = "the store update is not in a loop over the computed values"
+        if loop is not None and loop["kind"] == "for":
+            alts, filtered = D.source(loop["src"])
+            el = alts[0] if len(alts) == 1 else ("?", "chained")
+            zipped = el[0] == "tuple" and len(el) == 3 and el[1] == STATES
+            want_val = ("call", EVAL_EXPR, ("place", "self.ctx"), ("place", "self.data"), ("payload", ("field", STATES, "next")))
+            ok = ds == ("field", STATES, "symbol") and dv == want_val and self_field(u["recv"], "data")
+            why = "the committed pair is (%s, %s)" % (ds, dv)
+            if ok and zipped and filtered:
+                ok, why = False, "the values are zipped with the states by position but one of the two sequences skips elements: %s" % show(loop["src"])[:120]
+        ctx.inst("R07.1", "step:commit-positional", ok, u["sp"], "%s: %s" % (why, show(u)), sample=show(loop["src"])[:120] if loop and loop.get("src") else None)
 
 
 def init(ctx):
     f = ctx.fn("patronus", IMPL + "::init")
     ix = Index(f["body"])
+    defs = local_defs(f)
+    D = iterdesc.Desc(ix, defs, call_names=(EVAL_EXPR,))
     evals = [n for n in ix.nodes if is_eval(n)]
     ctx.floor("R07.2", "eval_expr calls in init", len(evals), 1)
     first_eval = min(evals, key=lambda n: ix.pre[id(n)]) if evals else None
     clears = [n for n in ix.nodes if n.get("k") == "mcall" and n["name"] == "clear" and self_field(n["recv"], "data")]
-    allocs = [n for n in ix.nodes if n.get("k") == "call" and callee(n) == INIT_SIGNAL]
-    ctx.inst("R07.2", "init:clear", len(clears) == 1 and all(ix.dominates(clears[0], a) for a in allocs), f["span"], "self.data.clear() must dominate the allocation of all symbols (found %d clear calls)" % len(clears))
-    seen = set()
-    for a in allocs:
-        loop = ix.enclosing(a, ("for",))
-        which = None
-        if loop is not None:
-            lb, lms = chain(loop["iter"])
-            if [m[0] for m in lms] == ["iter"] and len(ix.regions[id(a)]) == len(ix.regions[id(loop)]) + 1:
-                if self_field(lb, "sys.states"):
-                    sb = binding_of_pat(loop["pat"])
-                    fp = field_path(a["args"][2])
-                    if sb and fp and fp[1] == sb[1] and fp[2] == ["symbol"]:
-                        which = "states"
-                elif self_field(lb, "sys.inputs"):
-                    sb = binding_of_pat(loop["pat"])
-                    if sb and is_local(a["args"][2], sb[1]):
-                        which = "inputs"
-        if which and first_eval is not None and ix.dominates(loop, first_eval) and self_field(a["args"][1], "data"):
-            seen.add(which)
+    # allocation sites: init_signal(ctx, &mut self.data, symbol, ..) or self.data.define_bv / define_array(symbol, ..)
+    allocs = []
+    for n in ix.nodes:
+        if n.get("k") == "call" and callee(n) == INIT_SIGNAL and self_field(n["args"][1], "data"):
+            allocs.append((n, n["args"][2], "both"))
+        elif n.get("k") == "mcall" and n["name"] in ("define_bv", "define_array") and (callee(n) or "").startswith(STORE + "::") and self_field(n["recv"], "data"):
+            allocs.append((n, n["args"][0], n["name"]))
+    ctx.inst("R07.2", "init:clear", len(clears) == 1 and bool(allocs) and all(ix.dominates(clears[0], a) for a, _, _ in allocs), f["span"], "self.data.clear() must dominate the allocation of all symbols (found %d clear calls)" % len(clears))
+    covered = {}
+    for a, sym, kind in allocs:
+        loop = norm_.iter_context(ix, a)
+        if loop is None or loop["kind"] != "for":
+            continue
+        alts, filtered = D.source(loop["src"])
+        if filtered or any(x.get("k") in ("continue", "break") for x in walk(loop["body"])):
+            continue
+        if first_eval is None or not ix.dominates(loop["node"], first_eval):
+            continue
+        depth = len(ix.regions[id(a)]) - len(ix.regions[id(loop["node"])])
+        # init_signal directly in the loop body; define_bv / define_array in the two arms of the match on the generated value
+        if not ((kind == "both" and depth == 1) or (kind != "both" and depth == 2)):
+            continue
+        d = D.of(sym)
+        for which, want in (("states", ("field", STATES, "symbol")), ("inputs", INPUTS)):
+            if d == want or (d[0] == "oneof" and want in d[1:]):
+                covered.setdefault(which, set()).add(kind)
     for w in ("states", "inputs"):
-        ctx.inst("R07.2", "init:alloc-%s" % w, w in seen, f["span"], "no unconditional loop allocating every element of self.sys.%s in the live store before the first init expression is evaluated" % w)
-    # init expressions: for state in states { if let Some(init) = state.init { value = eval(init); update(state.symbol, value) } }
+        got = covered.get(w, set())
+        ok = "both" in got or {"define_bv", "define_array"} <= got
+        ctx.inst("R07.2", "init:alloc-%s" % w, ok, f["span"], "no unconditional loop allocating every element of self.sys.%s in the live store before the first init expression is evaluated" % w)
+    # init expressions are evaluated against the live store, in state order, and committed to their own state right away
+    ups = [n for n in ix.nodes if is_update(n) and n["name"] == "update"]
     for i, e in enumerate(evals):
-        loop = ix.enclosing(e, ("for",))
+        loop = norm_.iter_context(ix, e)
         ok = False
-        if loop is not None:
-            lb, lms = chain(loop["iter"])
-            sb = binding_of_pat(loop["pat"])
-            if self_field(lb, "sys.states") and [m[0] for m in lms] == ["iter"] and sb:
-                defs = local_defs(f)
-                x = peel(e["args"][2])
-                src_ok = False
-                if x.get("k") == "local":
-                    d = defs.get(x["id"])
-                    if d and d[0] in ("letexpr", "arm", "let"):
-                        src = d[1].get("init") or d[1].get("scrut")
-                        fp = field_path(src) if src else None
-                        src_ok = fp is not None and fp[1] == sb[1] and fp[2] == ["init"]
-                ups = [u for u in walk(loop["body"]) if is_update(u) and u["name"] == "update"]
-                up_ok = False
-                for u in ups:
-                    fp = field_path(u["args"][0])
-                    v = peel(u["args"][1])
-                    vinit = simple_let_init(defs, v["id"]) if v.get("k") == "local" else v
-                    if fp and fp[1] == sb[1] and fp[2] == ["symbol"] and vinit is not None and strip_try(vinit) is e and ix.precedes(e, u) and ix.regions[id(u)] == ix.regions[id(e)]:
-                        up_ok = True
-                ok = src_ok and up_ok and self_field(e["args"][1], "data") and self_field(e["args"][0], "ctx")
+        if loop is not None and loop["kind"] == "for":
+            de = D.of(e["args"][2])
+            src_ok = de == ("payload", ("field", STATES, "init"))
+            up_ok = False
+            for u in ups:
+                if not contains(loop["body"], u):
+                    continue
+                dv = D.of(u["args"][1])
+                if D.of(u["args"][0]) == ("field", STATES, "symbol") and dv[:2] == ("call", EVAL_EXPR) and norm_.value_source(ix, defs, u["args"][1]) is e and ix.precedes(e, u) and ix.regions[id(u)] == ix.regions[id(e)]:
+                    up_ok = True
+            alts, _ = D.source(loop["src"])
+            in_order = len(alts) == 1 and iterdesc.mentions(alts[0], STATES) and not any(m_[0] in ("rev",) for m_ in chain(loop["src"])[1])
+            ok = src_ok and up_ok and in_order and self_field(e["args"][1], "data") and self_field(e["args"][0], "ctx")
         ctx.inst("R07.2", "init:eval#%d" % (i + 1), ok, e["sp"], "init expressions must be evaluated against the live store in state order and committed to their own state immediately: %s" % show(e), sample=show(e))
 
 
@@ -184,21 +207,28 @@ def snapshots(ctx):
     pushes = [n for n in ix.nodes if n.get("k") == "mcall" and n["name"] == "push" and self_field(n["recv"], "snapshots")]
     ok = len(pushes) == 1
     if ok:
-        a = peel(pushes[0]["args"][0])
-        ok = a.get("k") == "mcall" and a["name"] == "clone" and self_field(a["recv"], "data") and (callee(a) or "").endswith("Clone>::clone") or (a.get("k") == "mcall" and a["name"] == "clone" and self_field(a["recv"], "data"))
+        a = resolve(pushes[0]["args"][0])
+        ok = a.get("k") == "mcall" and a["name"] == "clone" and self_field(a["recv"], "data")
     ctx.inst("R07.3", "take_snapshot:push-clone", ok, take["span"], "take_snapshot must push exactly one clone of self.data (found: %s)" % [show(p) for p in pushes], sample=show(pushes[0]) if pushes else None)
     lens = [n for n in ix.nodes if n.get("k") == "mcall" and n["name"] == "len" and self_field(n["recv"], "snapshots")]
-    ok = len(lens) == 1 and pushes and ix.precedes(lens[0], pushes[0])
+    # the id is the index of the pushed element: len() taken before the push, or len() - 1 taken after it
+    ok = False
+    if len(lens) == 1 and pushes:
+        par = ix.parent.get(id(lens[0]))
+        while par is not None and par.get("k") in ("blockexpr",):
+            par = ix.parent.get(id(par))
+        minus_one = par is not None and par.get("k") == "binary" and par["op"] == "-" and peel(par["r"]).get("v") == 1 and peel(par["l"]) is lens[0]
+        ok = (ix.precedes(lens[0], pushes[0]) and not minus_one) or (ix.precedes(pushes[0], lens[0]) and minus_one)
     ctx.inst("R07.3", "take_snapshot:id", bool(ok), take["span"], "the returned id must be the snapshot list length taken before the push")
     # restore
     uses = [n for n in walk(rest["body"]) if n.get("k") == "field" and n["name"] == "snapshots"]
     assigns = [n for n in walk(rest["body"]) if n.get("k") == "assign"]
     ok = len(assigns) == 1 and self_field(assigns[0]["l"], "data")
     if ok:
-        r = peel(assigns[0]["r"])
+        r = resolve(assigns[0]["r"])
         ok = r.get("k") == "mcall" and r["name"] == "clone"
         if ok:
-            src = peel(r["recv"])
+            src = resolve(r["recv"])
             ok = src.get("k") == "index" and self_field(src["e"], "snapshots")
     ctx.inst("R07.3", "restore_snapshot:assign-clone", ok, rest["span"], "restore_snapshot must assign self.data = self.snapshots[id].clone(): %s" % show(rest["body"]), sample=show(rest["body"]))
     mut_uses = []
